@@ -227,6 +227,7 @@ impl C14 {
             None => return Some(fail("F1-exact", item, &native, "finite float rejected".into())),
         };
         let (int, scale) = d.as_bigint_and_exponent();
+        obs.digest(&[scale as u64, int.bits(), int.iter_u64_digits().next().unwrap_or(0)]);
         if !decimal_equals_m2e(&int, scale, neg, m, e) {
             return Some(fail("F1-exact", item, &native, format!("decimal ({}, scale {}) is not {}{}*2^{}", clip(&int.to_string(), 60), scale, if neg { "-" } else { "" }, m, e)));
         }
@@ -258,6 +259,9 @@ impl C14 {
             };
             if !admissible(env) {
                 continue;
+            }
+            if let Some(x) = a {
+                obs.digest(&[x.to_bits()]);
             }
             match (a, b) {
                 (Some(x), Some(y)) if x.to_bits() == y.to_bits() => {
